@@ -32,6 +32,7 @@ ANIM = "hippolyzer/lib/base/llanim.py"
 TYPES = "hippolyzer/lib/base/message/msgtypes.py"
 MESH = "hippolyzer/lib/base/mesh.py"
 MSGHANDLER = "hippolyzer/lib/base/message/message_handler.py"
+WEARABLES = "hippolyzer/lib/base/wearables.py"
 
 
 # --------------------------------------------------------------------------- class hierarchy helpers
@@ -953,6 +954,29 @@ def r2(ctx):
     ctx.stats["C20.R2.pairs"] = npairs
     ctx.assume("C20.R2: `self._enum_cls` of SchemaEnumField is an IntEnum class (constructor annotation "
                "Type[LookupIntEnum]); int(member) <-> EnumClass(int) is then exact")
+    # the line tokeniser: the format separates key and value by C isspace() bytes; Unicode-aware `\\s` / str.strip()
+    # also swallow U+3000, U+00A0, ... at the start of a value
+    smod = repo.module(SCHEMA)
+    pat = repo.module_assign(smod, "_SCHEMA_LINE_TOKENS_RE")
+    ctx.require(isinstance(pat, ast.Call) and (ap(pat.func) or "").endswith("compile") and pat.args,
+                "C20.R2: _SCHEMA_LINE_TOKENS_RE is no longer a compiled pattern (re-read)")
+    ptxt = ConstEval(repo, smod).ev(pat.args[0])
+    ctx.require(isinstance(ptxt, (str, bytes)), "C20.R2: schema line pattern is not a literal (re-read)")
+    flags = [pat.args[1]] if len(pat.args) > 1 else []
+    flags += [k.value for k in pat.keywords if k.arg == "flags"]
+    ascii_flag = any((ap(x) or "").split(".")[-1] in ("ASCII", "A") for fl in flags for x in ast.walk(fl))
+    uses_class = isinstance(ptxt, str) and any(t in ptxt for t in ("\\s", "\\S", "\\w", "\\W", "\\d", "\\D", "\\b"))
+    _ob(ctx, "C20.R2", "parse_schema_line: the line pattern uses the format's ASCII blanks", ascii_flag or not uses_class,
+        ctx.w(smod, pat), "a str pattern with \\s and without re.ASCII treats every Unicode space as a separator: a value "
+                          "starting with U+3000 / U+00A0 loses its first character on parse")
+    tok = repo.fn("_yield_schema_tokens", INV)
+    strips = [c for c in calls(tok.node) if call_attr(c) in ("strip", "lstrip", "rstrip") and isinstance(c.func, ast.Attribute)]
+    for i, c in enumerate(strips):
+        chars = ConstEval(repo, tok.module).ev(c.args[0]) if c.args else None
+        ok = isinstance(chars, str) and all(ord(ch) < 128 for ch in chars)
+        _ob(ctx, "C20.R2", f"_yield_schema_tokens: line strip{'' if i == 0 else f' #{i + 1}'} removes ASCII blanks only", ok,
+            ctx.w(tok, c), f"`{norm(c)}` strips every Unicode space from the line")
+
     # tz lint (shared hipposa.tzlint) on the schema modules
     sites = tz_sites(repo, (SCHEMA, INV))
     # (conversions may live in module-level helpers of legacy_schema.py that SchemaDate calls)
@@ -2239,6 +2263,48 @@ def r8(ctx):
                             f"{c.name}.{key} can legitimately be {hit} (the writer emits it), but the reader then returns "
                             f"None: such a node is silently dropped on parse")
     ctx.stats["C20.R8.skip guards x classes"] = examined
+    # both writers leave a field whose value is None out; a field declared Optional[...] WITHOUT a default is then
+    # missing from the constructor call unless the shared constructor tail (_obj_from_dict) defaults it
+    done = set()
+    for c in sorted((k for k in classes if _is_dataclass(k) and k.module.rel == INV), key=lambda k: k.name):
+        for fd in _dc_fields(repo, c).values():
+            if not fd.is_schema or (fd.owner.name, fd.name) in done:
+                continue
+            ann = fd.node.annotation
+            optional = isinstance(ann, ast.Subscript) and (ap(ann.value) or "").split(".")[-1] == "Optional"
+            if not optional or kw(fd.call, "default") is not None or kw(fd.call, "default_factory") is not None:
+                continue
+            done.add((fd.owner.name, fd.name))
+            tail = _lookup_method(repo, fd.owner, "_obj_from_dict")
+            defaulted = False
+            if tail is not None and len(_first_params(tail)) >= 2:
+                dname = _first_params(tail)[1]
+                for call in calls(tail.node):
+                    if call_attr(call) == "setdefault" and isinstance(call.func, ast.Attribute) and ap(call.func.value) == dname \
+                            and call.args and isinstance(call.args[0], ast.Constant) and call.args[0].value == fd.name \
+                            and not facts(call, tail.node):
+                        defaulted = True
+                for st in stores(tail.node, into_defs=False):
+                    # `if "f" not in d: d["f"] = None`
+                    if st.kind == "setitem" and st.path == dname and isinstance(st.target.slice, ast.Constant) \
+                            and st.target.slice.value == fd.name:
+                        fs = facts(st.node, tail.node)
+                        if len(fs) == 1 and isinstance(fs[0][0], ast.Compare) and len(fs[0][0].ops) == 1 \
+                                and isinstance(fs[0][0].left, ast.Constant) and fs[0][0].left.value == fd.name \
+                                and ap(fs[0][0].comparators[0]) == dname \
+                                and isinstance(fs[0][0].ops[0], ast.NotIn if fs[0][1] else ast.In):
+                            defaulted = True
+                    # `d = {"f": None, **d}`
+                    if st.kind == "assign" and st.path == dname and isinstance(st.value, ast.Dict) and not facts(st.node, tail.node) \
+                            and any(k is None and ap(v) == dname for k, v in zip(st.value.keys, st.value.values)) \
+                            and any(isinstance(k, ast.Constant) and k.value == fd.name for k in st.value.keys if k is not None):
+                        pos = [i for i, k in enumerate(st.value.keys) if k is None and ap(st.value.values[i]) == dname][0]
+                        kpos = [i for i, k in enumerate(st.value.keys) if isinstance(k, ast.Constant) and k.value == fd.name][0]
+                        defaulted = defaulted or kpos < pos
+            _ob(ctx, "C20.R8", f"{fd.owner.name}.{fd.name}: a field the writers omit when None can be constructed when absent",
+                defaulted, ctx.w(fd.owner.module, fd.node),
+                f"`{fd.name}` is Optional without a default: to_writer / to_llsd skip a None value, and the reader then "
+                f"calls the constructor without it (TypeError: missing required argument) in every flavour")
 
 
 # =========================================================================== R9
@@ -2389,14 +2455,20 @@ def r10(ctx):
             for e, pol in facts(call, m.node):
                 if isinstance(e, ast.Compare) and len(e.ops) == 1:
                     l, r = e.left, e.comparators[0]
+                    l = l if ap(l) in params or ap(l) in payload else _expand(m.node, l)
+                    r = r if ap(r) in params or ap(r) in payload else _expand(m.node, r)
                     op = e.ops[0]
                     if isinstance(op, (ast.Eq, ast.NotEq)) and any(ap(x) in params for x in (l, r)) and \
                             any(isinstance(x, ast.Constant) and isinstance(x.value, str) for x in (l, r)):
                         cst = next(x.value for x in (l, r) if isinstance(x, ast.Constant))
                         flav.append(cst if isinstance(op, ast.Eq) == pol else f"not {cst}")
                         continue
-                    sub = next((x for x in (l, r) if isinstance(x, ast.Subscript) and ap(x.value) == pv
-                                and isinstance(x.slice, ast.Constant)), None)
+                    if isinstance(op, (ast.In, ast.NotIn)) and ap(r) == pv and isinstance(l, ast.Constant):
+                        continue        # `"key" in payload`: a presence guard, not a condition on the node's content
+                    sub = next((x for x in (l, r) if (isinstance(x, ast.Subscript) and ap(x.value) == pv
+                                                      and isinstance(x.slice, ast.Constant))
+                                or (isinstance(x, ast.Call) and call_attr(x) == "get" and isinstance(x.func, ast.Attribute)
+                                    and ap(x.func.value) == pv and x.args and isinstance(x.args[0], ast.Constant))), None)
                     if sub is not None and (pol and isinstance(op, (ast.Eq, ast.In))
                                             or not pol and isinstance(op, (ast.NotEq, ast.NotIn))):
                         o = r if sub is l else l
@@ -2404,7 +2476,7 @@ def r10(ctx):
                         vals = [ev.ev(x) for x in elts]
                         if all(isinstance(v, EnumVal) for v in vals):
                             types = sorted({v.name for v in vals})
-                            tfield = sub.slice.value
+                            tfield = sub.slice.value if isinstance(sub, ast.Subscript) else sub.args[0].value
                             continue
                 other.append(norm(e) if pol else f"not ({norm(e)})")
             fl = ",".join(flav) or "any flavour"
@@ -2441,6 +2513,43 @@ def r10(ctx):
                     "; the sibling reader can only put a constant back, so a node whose field differs from that "
                     f"constant does not survive to_llsd -> from_llsd ({inv_why})")
     ctx.stats["C20.R10.payload pops"] = n
+    # the generic writer leaves an unset optional field (default None) out of the payload: post-processing of an
+    # override may subscript / pop-without-default such a key only under a presence guard
+    for c in sorted(_subclasses(repo, sbase), key=lambda k: k.name):
+        m = c.methods.get("to_llsd")
+        if m is None:
+            continue
+        payload = {st.path for st in stores(m.node, into_defs=False) if st.kind == "assign" and st.value is not None
+                   and isinstance(st.value, ast.Call) and call_attr(st.value) == "to_llsd" and src(st.value.func).startswith("super()")}
+        if not payload:
+            continue
+        fields = _dc_fields(repo, c)
+        seen_keys: Dict[str, int] = {}
+        for x in walk(m.node):
+            key = None
+            if isinstance(x, ast.Subscript) and isinstance(x.ctx, ast.Load) and ap(x.value) in payload \
+                    and isinstance(x.slice, ast.Constant) and isinstance(x.slice.value, str):
+                key, pv = x.slice.value, ap(x.value)
+            elif isinstance(x, ast.Call) and call_attr(x) == "pop" and isinstance(x.func, ast.Attribute) \
+                    and ap(x.func.value) in payload and len(x.args) == 1 and isinstance(x.args[0], ast.Constant):
+                key, pv = x.args[0].value, ap(x.func.value)
+            if key is None:
+                continue
+            fd = fields.get(key) or next((f for f in fields.values() if f.llsd_name == key), None)
+            if fd is None or not fd.is_schema:
+                continue
+            d = kw(fd.call, "default")
+            if not (isinstance(d, ast.Constant) and d.value is None):
+                continue        # a required field is always in the payload
+            guarded = any(pol and isinstance(e, ast.Compare) and len(e.ops) == 1 and isinstance(e.ops[0], ast.In)
+                          and ap(e.comparators[0]) == pv and isinstance(e.left, ast.Constant) and e.left.value == key
+                          for e, pol in facts(x, m.node))
+            seen_keys[key] = seen_keys.get(key, 0) + 1
+            tag = "" if seen_keys[key] == 1 else f" #{seen_keys[key]}"
+            _ob(ctx, "C20.R10", f"{c.name}.to_llsd: reads optional payload key {key!r}{tag} only when it is present", guarded,
+                ctx.w(m, x),
+                f"`{norm(x)}` raises KeyError for a {c.name} whose optional `{fd.name}` is unset: the generic writer leaves "
+                f"unset optional fields out of the payload, so such a node cannot be serialised in this flavour at all")
 
 
 # =========================================================================== R11
@@ -2662,6 +2771,48 @@ def r14(ctx):
                                "subscriber (the transfer pump) never sees that chunk", path)
 
 
+# =========================================================================== R15
+
+def r15(ctx):
+    repo = ctx.repo
+    ctx.rule("C20.R15", "wearable text form: the reader takes the name from the line right after the version line, where "
+                        "the writer puts it - without skipping blank lines first, because the name may be empty")
+    rd = repo.fn("Wearable.from_reader", WEARABLES)
+    wr = repo.fn("Wearable.to_writer", WEARABLES)
+    rparam = _first_params(rd)[1]
+    reads = [st for st in stores(rd.node, into_defs=False) if st.kind == "assign" and st.value is not None
+             and any(call_attr(c) == "readline" and isinstance(c.func, ast.Attribute) and ap(c.func.value) == rparam
+                     for c in calls(st.value))]
+    ctor = [c for c in calls(rd.node) if kw(c, "name") is not None]
+    ctx.require(len(reads) >= 2 and ctor, "C20.R15: Wearable.from_reader no longer reads a version line and a name line (re-read)")
+    name_var = ap(kw(ctor[0], "name"))
+    version_read = reads[0]
+    name_read = next((st for st in reads if st.path == name_var), None)
+    if name_read is None and name_var:
+        via = {n.id for v in assigned_value(rd.node, name_var) for n in ast.walk(v) if isinstance(n, ast.Name)}
+        name_read = next((st for st in reads[1:] if st.path in via), None)
+    ctx.require(name_read is not None and name_read is not version_read,
+                f"C20.R15: cannot find the readline() that yields `{name_var}` (re-read)")
+    # writer: the name is written by the statement right after the version line, with nothing in between
+    writes = [c for c in calls(wr.node) if call_attr(c) == "write" and c.args]
+    ctx.require(len(writes) >= 2, "C20.R15: Wearable.to_writer shape changed (re-read)")
+    w_name_second = any(isinstance(v, ast.FormattedValue) and (ap(v.value) or "").endswith(".name")
+                        for v in ast.walk(writes[1].args[0]))
+    ctx.require(w_name_second, "C20.R15: Wearable.to_writer no longer writes the name as its second line (re-read)")
+    between = []
+    for st in rd.node.body:
+        if _precedes(version_read.node, st) and _precedes(st, name_read.node):
+            for c in calls(st):
+                consumes = any(ap(a) == rparam for a in c.args) or \
+                    (isinstance(c.func, ast.Attribute) and ap(c.func.value) == rparam and c.func.attr in ("readline", "read", "seek"))
+                if consumes:
+                    between.append(c)
+    _ob(ctx, "C20.R15", "Wearable.from_reader: the name is the line right after the version line", not between,
+        ctx.w(rd, between[0]) if between else rd.where,
+        f"`{norm(between[0]) if between else ''}` moves the reader between the version line and the name line: an empty "
+        f"name (a legal value, written as an empty line) is skipped and the permissions header is taken for the name")
+
+
 def run(ctx):
     r1(ctx)
     r2(ctx)
@@ -2677,3 +2828,4 @@ def run(ctx):
     r12(ctx)
     r13(ctx)
     r14(ctx)
+    r15(ctx)
